@@ -6,11 +6,15 @@ import itertools
 from common import Result, pmap, compare, enc_value, dec_outcome, call_outcome, canon_py, thaw, ERR
 
 ID = 'C12'
-COQ_FILES = ['Properties/C12.v', 'Proofs/LogicProofs.v', 'Proofs/LogicAlgebra.v', 'Proofs/LogicSource.v', 'Model/LogicShape.v', 'Gen/LogicFns.v', 'Proofs/ValueProofs.v']
+COQ_FILES = ['Properties/C12.v', 'Proofs/LogicProofs.v', 'Proofs/LogicAlgebra.v', 'Proofs/LogicSource.v', 'Model/LogicShape.v', 'Gen/LogicFns.v', 'Proofs/PredSource.v', 'Model/PredShape.v', 'Gen/PredFns.v', 'Proofs/ValueProofs.v']
 TRUSTED = [
     'Gen/LogicFns.v is regenerated on every run by tools/gen/logicshape.py (python ast, fail-closed) from AND/OR/XOR/NOT/IF '
     'and _first_error of formulas/logic.py; Model/LogicShape.v gives the shapes their meaning by hand (utils.flatten = '
     'flatten_args, all/any/sum(bool)&1, not, conditional expression)',
+    'Gen/PredFns.v is regenerated on every run by tools/gen/predshape.py (python ast, fail-closed) from the IS* predicates of '
+    'formulas/information.py and the class tuples of hotxlfp/_compat; Model/PredShape.v gives isinstance / is None / == '
+    'error.X / int(x) & 1 their meaning on model values by hand (XLError compares by identity, the constants are canonical; '
+    'complex numbers are outside the model)',
     'modelled, not verified: Python truthiness, ==, all/any/sum, isinstance on the value classes int, float, bool, str, '
     'None, XLError, datetime, list (Model/Value.v); floats are the exact rationals they denote',
 ]
@@ -36,8 +40,12 @@ def gen(ctx):
     import logicshape
     root = os.environ.get('VERIF_SNAPSHOT', '/repo')
     ch, ok, notes = logicshape.write(os.path.join(VERIF, 'coq', 'Gen', 'LogicFns.v'), root)
+    import predshape
+    ch2, ok2, notes2 = predshape.write(os.path.join(VERIF, 'coq', 'Gen', 'PredFns.v'), root)
     return {'Gen/LogicFns.v': ('regenerated (changed)' if ch else 'regenerated (identical to the committed baseline)')
-            + ('' if ok else '; NOT UNDERSTOOD: ' + '; '.join(notes))}
+            + ('' if ok else '; NOT UNDERSTOOD: ' + '; '.join(notes)),
+            'Gen/PredFns.v': ('regenerated (changed)' if ch2 else 'regenerated (identical to the committed baseline)')
+            + ('' if ok2 else '; NOT UNDERSTOOD: ' + '; '.join(notes2))}
 
 
 def errs():
